@@ -70,6 +70,8 @@ Inductive fkind :=
 | FNoSlice      (* wait_all/wait_any on an address with no array *)
 | FRegIndex     (* register index outside 0..15 (cannot come from the binary format) *)
 | FType         (* ordering comparison with an undefined register (blt/bge), Python TypeError *)
+| FOverflow     (* hardware configuration only: a value / index / address written to a register or an
+                   array (or returned to the host) does not fit the declared width (OverflowError) *)
 | FBook.        (* inconsistent qubit bookkeeping: qfree of a physical id that is not in the in-use set
                    (set.remove -> KeyError), or no unused physical id found ("should never get here") *)
 
@@ -158,6 +160,19 @@ Definition set_add (x : Z) (l : list Z) : list Z := if set_mem x l then l else l
 Definition set_remove (x : Z) (l : list Z) : list Z := filter (fun y => negb (Z.eqb x y)) l.
 
 Definition Zlen {A} (l : list A) : Z := Z.of_nat (List.length l).
+
+(* ------------------------------------------------------------------ configuration
+   netqasm.runtime.settings.set_is_using_hardware(True) makes every write to a register
+   or an array entry (and the addresses used to reach arrays) check the declared width
+   (sdk/shared_memory._assert_within_width, ADDRESS_BITS = 32, two's complement);
+   in simulation (the default) values are unbounded. *)
+Record config := mkConfig { cfg_hw : bool }.
+Definition cfg_sim : config := mkConfig false.
+Definition cfg_hardware : config := mkConfig true.
+
+Definition WIDTH : Z := 32.
+Definition fits (v : Z) : bool := (- 2 ^ (WIDTH - 1) <=? v) && (v <=? 2 ^ (WIDTH - 1) - 1).
+Definition cell_fits (c : cell) : bool := match c with Some v => fits v | None => true end.
 
 (* result of running one subroutine *)
 Definition result := (state * Z * outcome)%type.
